@@ -164,7 +164,8 @@ def corpus():
 _SEED_SCRIPT = r"""
 import sys, json, hashlib
 from jinja2 import Environment
-from contracts.c30 import corpus
+_corpus = json.loads(sys.stdin.read())
+corpus = lambda: _corpus
 out = {}
 want_src = set(sys.argv[1:])
 for is_async in (False, True):
@@ -192,10 +193,12 @@ def compile_under_seeds(seeds, full_sources=()):
         import jinja2
         src_root = os.path.dirname(os.path.dirname(os.path.abspath(jinja2.__file__)))
         env["PYTHONPATH"] = os.pathsep.join([root, src_root])
-        procs.append((sd, subprocess.Popen([sys.executable, "-c", _SEED_SCRIPT] + list(full_sources), stdout=subprocess.PIPE, stderr=subprocess.PIPE, text=True, env=env)))
+        procs.append((sd, subprocess.Popen([sys.executable, "-c", _SEED_SCRIPT] + list(full_sources), stdin=subprocess.PIPE, stdout=subprocess.PIPE,
+                                           stderr=subprocess.PIPE, text=True, env=env)))
     out = {}
+    payload = json.dumps(corpus())
     for sd, p in procs:
-        so, se = p.communicate(timeout=300)
+        so, se = p.communicate(payload, timeout=300)
         if p.returncode != 0:
             raise RuntimeError(f"seed {sd}: {se[-500:]}")
         out[sd] = json.loads(so.strip().splitlines()[-1])
